@@ -784,7 +784,170 @@ def gen_panic_sites(repo):
     return text, len(keys)
 
 
+# --- DriverShape (C07, C18): paste into translator/extract.py before `TABLES = {`, and add
+#     "DriverShape": gen_driver_shape  to TABLES ------------------------------------------------------
+
+def gen_driver_shape(repo):
+    """shape of the driver: guard of the generator block and status arms (main.rs), phase calls and their
+    gates (lib.rs, patchers/mod.rs, validators/mod.rs), `action` strings of the E001s built in main.rs"""
+    T = "DriverShape"
+    ws = lambda s: re.sub(r"\s+", "", s)  # noqa: E731
+
+    def q(x):
+        return '"' + x.replace("\\", "\\\\").replace('"', '\\"') + '"'
+
+    # ---- main.rs: the condition in front of the generator block --------------------------------
+    rel = "slicec/src/main.rs"
+    src = read(repo, rel, T)
+    body = fn_body(src, "main", T, rel)
+    if "spawn_plugin_process" not in body:
+        raise ExtractionError(T, rel, "fn main no longer calls spawn_plugin_process")
+    conj = []
+    for m in re.finditer(r"\bif\s+([^{};]+?)\s*\{", body):
+        blk = block_after(body, m.end() - 1)
+        if blk is not None and "spawn_plugin_process" in blk:
+            conj += [ws(c) for c in m.group(1).split("&&")]
+    # ---- main.rs: collect_plugin_output ---------------------------------------------------------
+    cb = fn_body(src, "collect_plugin_output", T, rel)
+    mm = re.search(r"match\s+output\s*\.\s*status\s*\.\s*code\s*\(\s*\)\s*", cb)
+    if not mm:
+        raise ExtractionError(T, rel, "collect_plugin_output: `match output.status.code()` not found")
+    arms_txt = block_after(cb, mm.end() - 1)
+    if arms_txt is None:
+        raise ExtractionError(T, rel, "collect_plugin_output: match block not found")
+    stderr_check = False
+    ms = re.search(r"\bif\s+!\s*output\s*\.\s*stderr\s*\.\s*is_empty\s*\(\s*\)\s*\{", cb[:mm.start()])
+    if ms:
+        blk = block_after(cb, ms.end() - 1)
+        stderr_check = blk is not None and re.search(r"\breturn\s+Err\s*\(", blk) is not None
+    arms = []
+    for am in re.finditer(r"([^=>,{}]+?)\s*=>\s*(Ok|Err)\s*\(([^;]*?)\)\s*,", arms_txt):
+        pats = []
+        for alt in am.group(1).split("|"):
+            alt = ws(alt)
+            if re.fullmatch(r"Some\((\d+)\)", alt):
+                pats.append(".code " + re.fullmatch(r"Some\((\d+)\)", alt).group(1))
+            elif re.fullmatch(r"Some\(_?[a-z]\w*\)|Some\(_\)", alt):
+                pats.append(".anyCode")
+            elif alt == "None":
+                pats.append(".noCode")
+            elif alt == "_":
+                pats.append(".any")
+            else:
+                raise ExtractionError(T, rel, f"collect_plugin_output: status pattern `{alt}` not understood")
+        if am.group(2) == "Ok":
+            if ws(am.group(3)) != "output.stdout":
+                raise ExtractionError(T, rel, f"collect_plugin_output: Ok arm returns `{ws(am.group(3))}`, expected output.stdout")
+            arms.append((pats, True))
+        else:
+            arms.append((pats, False))
+    if not arms:
+        raise ExtractionError(T, rel, "collect_plugin_output: no status arms found")
+    actions = re.findall(r"\baction\s*:\s*\"([^\"]*)\"", src)
+    # ---- lib.rs: compile_from_options / compile_files -------------------------------------------
+    rel2 = "slicec/src/lib.rs"
+    lsrc = read(repo, rel2, T)
+    cfo = fn_body(lsrc, "compile_from_options", T, rel2)
+    i_res = cfo.find("resolve_files_from(")
+    m_cf = re.search(r"\bcompile_files\s*\(", cfo)
+    if i_res < 0 or not m_cf or m_cf.start() < i_res:
+        raise ExtractionError(T, rel2, "compile_from_options: resolve_files_from(...) followed by compile_files(...) not found")
+    gate_cf = "ungated"
+    for mi in re.finditer(r"\bif\s+([^{};]+?)\s*\{", cfo[i_res:]):
+        blk = block_after(cfo[i_res:], mi.end() - 1)
+        if blk is not None and re.search(r"\bcompile_files\s*\(", blk):
+            gate_cf = "if-clean" if ws(mi.group(1)) == "!state.diagnostics.has_errors()" else "if:" + ws(mi.group(1))
+    rows = [("resolve", "always")]
+    # `apply` / `apply_unsafe` must be "call the function iff no error so far"
+    rel5 = "slicec/src/compilation_state.rs"
+    csrc = read(repo, rel5, T)
+    for fname in ("apply", "apply_unsafe"):
+        ab = fn_body(csrc, fname, T, rel5)
+        if not re.fullmatch(r"if!self\.diagnostics\.has_errors\(\)\{function\(self\);?\}", ws(ab)):
+            raise ExtractionError(T, rel5, f"fn {fname} is no longer `if !self.diagnostics.has_errors() {{ function(self); }}`")
+
+    def group(body_txt, events, clean_at_entry, where):
+        """events: list of (regex, kind, name); kind in call/apply/check. returns rows in source order"""
+        found = []
+        for rx, kind, name in events:
+            for mi in re.finditer(rx, body_txt):
+                found.append((mi.start(), kind, name if name else ws(mi.group(1))))
+        found.sort()
+        out, clean = [], clean_at_entry
+        for _pos, kind, name in found:
+            if kind == "check":
+                clean = True
+            elif kind == "apply":
+                out.append((name, "if-clean"))
+                clean = False
+            else:
+                out.append((name, "if-clean" if clean else "ungated"))
+                clean = False
+        return out
+
+    cf = fn_body(lsrc, "compile_files", T, rel2)
+    top = group(cf, [
+        (r"\bparsers::parse_files\s*\(", "call", "parse"),
+        (r"\bstate\s*\.\s*apply(?:_unsafe)?\s*\(\s*patchers::patch_ast\s*\)", "apply", "PATCH"),
+        (r"\bstate\s*\.\s*apply(?:_unsafe)?\s*\(\s*validators::validate_ast\s*\)", "apply", "VALIDATE"),
+        (r"\bpatchers::patch_ast\s*\(\s*state\s*\)", "call", "PATCH"),
+        (r"\bvalidators::validate_ast\s*\(\s*state\s*\)", "call", "VALIDATE"),
+    ], gate_cf == "if-clean", rel2)
+    if [n for n, _g in top] != ["parse", "PATCH", "VALIDATE"]:
+        raise ExtractionError(T, rel2, f"compile_files: expected parse_files, patch_ast, validate_ast in this order, found {[n for n, _ in top]}")
+    rel3 = "slicec/src/patchers/mod.rs"
+    pb = fn_body(read(repo, rel3, T), "patch_ast", T, rel3)
+    pnames = {"attribute_patcher": "attributes", "type_ref_patcher::patch_ast": "typeRefs", "comment_link_patcher::patch_ast": "links"}
+    rel4 = "slicec/src/validators/mod.rs"
+    vb = fn_body(read(repo, rel4, T), "validate_ast", T, rel4)
+    for name, gate in top:
+        if name == "parse":
+            rows.append(("parse", gate))
+        elif name == "PATCH":
+            sub = group(pb, [
+                (r"\bcompilation_state\s*\.\s*apply(?:_unsafe)?\s*\(\s*([\w:]+)\s*\)", "apply", None),
+                (r"\b(attribute_patcher|type_ref_patcher::patch_ast|comment_link_patcher::patch_ast)\s*\(\s*compilation_state\s*\)", "call", None),
+            ], gate == "if-clean", rel3)
+            for n, g in sub:
+                if n not in pnames:
+                    raise ExtractionError(T, rel3, f"patch_ast: unknown patcher `{n}`")
+                rows.append((pnames[n], g))
+        else:
+            sub = group(vb, [
+                (r"\bcycle_detection::detect_cycles\s*\(", "call", "cycles"),
+                (r"\bidentifiers::check_for_redefinitions\s*\(", "call", "redefinitions"),
+                (r"\.\s*visit_with\s*\(", "call", "visitor"),
+                (r"\bif\s+diagnostics\s*\.\s*has_errors\s*\(\s*\)\s*\{\s*return\s*;\s*\}", "check", "-"),
+            ], gate == "if-clean", rel4)
+            rows += sub
+    have = [n for n, _g in rows]
+    for need in ("resolve", "parse", "attributes", "typeRefs", "links", "cycles", "redefinitions", "visitor"):
+        if have.count(need) != 1:
+            raise ExtractionError(T, "slicec/src", f"phase `{need}` found {have.count(need)} times in the compile pipeline")
+    arms_lean = ", ".join("([%s], %s)" % (", ".join(p), "true" if ok else "false") for p, ok in arms)
+    text = f"""-- GENERATED by translator/extract.py from slicec/src/main.rs, lib.rs, patchers/mod.rs, validators/mod.rs — do not edit.
+namespace Slicec.Gen
+/-- conjuncts of the condition guarding the generator block of `main` (whitespace removed) -/
+def driverGuard : List String := [{", ".join(q(c) for c in conj)}]
+/-- compilation phases in call order with their gate: "always", "if-clean" (runs iff no error was reported so far:
+    `apply`/`apply_unsafe`, an `if !has_errors()` around it or an `if has_errors() {{ return; }}` right before it) or anything else -/
+def driverPhases : List (String × String) := [{", ".join("(%s, %s)" % (q(n), q(g)) for n, g in rows)}]
+inductive StatusPat where
+  | code (n : Nat) | anyCode | noCode | any
+  deriving DecidableEq, Repr
+/-- arms of `match output.status.code()` in `collect_plugin_output`: alternatives of the pattern, and whether the arm is `Ok(output.stdout)` -/
+def collectArms : List (List StatusPat × Bool) := [{arms_lean}]
+/-- `if !output.stderr.is_empty() {{ … return Err(..) }}` stands in front of that match -/
+def collectStderrCheck : Bool := {"true" if stderr_check else "false"}
+/-- `action` strings of the `Error::IO` diagnostics built in main.rs, in source order -/
+def driverIoActions : List String := [{", ".join(q(a) for a in actions)}]
+end Slicec.Gen
+"""
+    return text, len(conj) + len(rows) + len(arms) + 1 + len(actions)
+
+
 TABLES = {
+    "DriverShape": gen_driver_shape,
     "Preproc": gen_preproc_tables,
     "EmitFormat": gen_emit_format,
     "PluginSpec": gen_plugin_spec,
